@@ -43,6 +43,7 @@ class Ctx:
         shutil.rmtree(self.work, ignore_errors=True)
         os.makedirs(self.work, exist_ok=True)
         self.replays = os.path.join(os.environ.get("VERIF_REPLAYS", os.path.join(VERIF, "replays")), prop)
+        shutil.rmtree(self.replays, ignore_errors=True)
         os.makedirs(self.replays, exist_ok=True)
         self.t0 = time.time()
         self.violations = []      # dicts: {match, replay, what, no_input}
